@@ -251,8 +251,8 @@ CLAIMED.update({
         "design_ref": "DESIGN.md 4.17",
         "technique": "Coq proof by induction on fuel / nesting depth with tag-dispatch lemmas; correspondence by extracted "
                      "OCaml model; purity by differential observation of the caller's objects",
-        "note": "4 theorems closed under the global context. Known finding F19 (VmControlData asymmetry: vmc_std / "
-                "vmc_envelope) is reported as KNOWN-FINDING and those two kinds are not modelled.",
+        "note": "4 theorems closed under the global context. vmc_std / vmc_envelope (VmControlData, save lists) are not in the "
+                "model: they are checked on the implementation against the schema written out by hand (F19 repaired).",
     },
 })
 
